@@ -23,7 +23,8 @@ RULE = (
     "mask form x {all-int, all-float, mixed} matrix x {exactly one, two or three} criteria in every run; SimpleImputer, KNNImputer, IterativeImputer x parameters on matrices with missing cells) "
     "and user transformers made with `mktransformer` that return a random subset of {matrix, objectives, weights, dtypes, "
     "alternatives, criteria} (+ `hparams`, `dtypes: None`; both signature styles). Every input is inside the numeric domain "
-    "of the steps by construction (positive where a division needs it, no constant column for range/variance based steps, "
+    "of the steps by construction (positive where a division needs it, no constant column for range/variance based steps "
+    "- except in the constant-criterion family below, where only an ANSWER is judged -, "
     ">= 3 alternatives for the statistical weighters); an exception is judged only if the failing step's own input is in "
     "its domain. IMPUTERS ON A CRITERION WITHOUT ANY OBSERVED VALUE: the three imputers x keep_empty_criteria in {default, "
     "False, True} on matrices with one or two all-missing criteria; oracle: a refusal (ValueError) or an answer with exactly "
@@ -51,7 +52,21 @@ RULE = (
     "whole or with a fractional part), passed to mkdm as a list or as an array; the keys of a by-criteria filter must be "
     "strings, so under such a filter the alternatives are the non-string ones (or the criteria are and the filter, with "
     "ignore_missing_criteria, finds none of its keys). Labels are read from `dm.alternatives` / `dm.criteria` and compared "
-    "with values AND types (2019 is not '2019'). One extra case per run holds the table extracted from the tree (class x target -> rewritten keys). "
+    "with values AND types (2019 is not '2019'). A CONSTANT CRITERION UNDER THE MATRIX-ONLY CLASSES (a fixed share of every run): "
+    "CenitDistanceMatrixScaler, CenitDistance, every scaler with target='matrix' x parameters and the three imputers x {alone, "
+    "alone inside a pipeline, a step among other matrix-only / weight-only steps (every step also judged by itself)} on "
+    "matrices where one / several / all criteria hold ONE value for every alternative (a value of the column, 0, or a "
+    "non-dyadic double) and on single-alternative matrices, every criterion with its non-zero weight: whatever the step makes "
+    "of such a column (0/0 included), weights and objectives must come back bit-identical and the labels unchanged. CRITERIA "
+    "OF ONE KIND BUT DIFFERENT WIDTHS, THE NARROWER FIRST (a fixed share of every run): float32 followed by float64 criteria "
+    "holding values a float32 cannot hold (0.1, 1/3, arbitrary doubles), int8 / int16 / int32 followed by int64 and uint8 "
+    "followed by uint64 criteria holding whole numbers above the narrow maximum; built by mkdm(array, dtypes=[...]), by mkdm of "
+    "a pandas DataFrame with per-column dtypes, or by the DecisionMatrix constructor on such a frame; through every step that "
+    "does not target the matrix (every weighter, every scaler with target='weights', FilterNonDominated x strict, a "
+    "by-criteria filter, every objective inverter - judged on its maximise criteria -, user transformers returning only the "
+    "weights or a subset without the matrix) x {alone, alone inside a pipeline, among weight-only steps (every step also "
+    "judged by itself)}: cells bit-identical (surviving rows under filters), per-criterion dtypes against the model's "
+    "declared sets. One extra case per run holds the table extracted from the tree (class x target -> rewritten keys). "
     "Non-trivial: the transform answered and changed at least one part; distinct by case hash."
 )
 ASSUMPTIONS = [
@@ -710,7 +725,184 @@ def _nonstring_label_cases(rng, rounds, n_pipe, n_user):
     return out
 
 
-def _random_cases(rng, n_sweeps, n_user, n_pipe, n_mask=1, n_seq=(60, 40), n_fixed=1, n_big=2, n_nonfinite=1, n_labels=(3, 30, 20)):
+# matrix-only classes: the only part they declare is the matrix (scalers with target='matrix', the two cenit-distance
+# classes, the imputers)
+CONST_WHICH = ["one-criterion", "some-criteria", "single-alternative"]
+
+
+def _matrix_only_step(rng, cls=None):
+    cls = cls or rng.choice(CENIT + SWITCH)
+    if cls in CENIT:
+        return {"k": "cenit", "cls": cls}
+    if cls in IMPUTERS:
+        return {"k": "imputer", "cls": cls, "params": _imputer_params(rng, cls)}
+    return {"k": "scaler", "cls": cls, "target": "matrix", "params": _scaler_params(rng, cls)}
+
+
+def _constant_criterion_case(rng, cls, which, shape):
+    """a matrix-only transformer over a matrix in which one / several / all criteria hold ONE value for every alternative
+    (a single-alternative matrix: all of them), each with its usual non-zero weight. What the step makes of such a column
+    (0/0 included) is its own business - it declares the matrix; weights and objectives must come back bit-identical."""
+    imputer = cls in IMPUTERS
+    signed = cls in ("StandarScaler", "MinMaxScaler", "MaxAbsScaler", "MaxScaler", "PushNegatives", "AddValueToZero") and rng.random() < 0.4
+    if which == "single-alternative":
+        dm = _dm(rng, m=1, positive=not signed)
+    elif imputer:
+        dm = _dm(rng, min_m=4, min_n=2, nan=rng.random() < 0.85, dtypes=rng.choice(["mixed", "float", "float"]))
+    else:
+        dm = _dm(rng, min_m=2, positive=not signed)
+    m, n = len(dm["matrix"]), len(dm["criteria"])
+    if which == "one-criterion":
+        const = [rng.randrange(n)]
+    elif imputer:  # one criterion keeps its spread (and its missing cells)
+        const = sorted(rng.sample(range(n), rng.randint(1, n - 1)))
+    else:
+        const = sorted(rng.sample(range(n), rng.randint(1, n)))
+    if m > 1:
+        for j in const:
+            seen = [row[j] for row in dm["matrix"] if row[j] is not None]
+            v = rng.choice(seen) if seen else 1.0
+            r = rng.random()
+            if r < 0.15:  # every alternative at zero
+                v = 0 if dm["dtypes"][j] == "int64" else 0.0
+            elif r < 0.3 and not imputer and dm["dtypes"][j] == "float64":
+                v = rng.choice([0.1, 0.3, 1 / 3, 2.7, 1e-3, 12345.678])  # not a dyadic number
+            for row in dm["matrix"]:
+                row[j] = v
+    main = _matrix_only_step(rng, cls)
+    steps = [main]
+    if shape == "pipeline":
+        before = [_weight_only_step(rng) if rng.random() < 0.5 else _matrix_only_step(rng) for _ in range(rng.randint(0, 1))]
+        after = [_weight_only_step(rng) if rng.random() < 0.4 else _matrix_only_step(rng) for _ in range(rng.randint(0 if before else 1, 2))]
+        steps = before + [main] + after
+    dm["family"] = "constant-criterion"
+    return {"dm": dm, "steps": steps, "pipe": shape != "alone", "stagewise": len(steps) > 1,
+            "constant_criterion": [cls, which, shape, [dm["criteria"][j] for j in (const if m > 1 else range(n))]]}
+
+
+def _constant_criterion_cases(rng, rounds):
+    """every matrix-only class x {one, several / all criteria constant, a single alternative} x shape"""
+    return [_constant_criterion_case(rng, cls, which, shape) for _ in range(rounds) for cls in CENIT + SWITCH + IMPUTERS
+            for which in (CONST_WHICH[:2] if cls in IMPUTERS else CONST_WHICH) for shape in SHAPES]
+
+
+# criteria of ONE numpy kind stored with different widths, the narrower one first: [narrow dtype, wide dtype, the largest
+# whole number the narrow one holds (None: floats)]
+WIDTH_PAIRS = [["float32", "float64", None], ["float32", "float64", None], ["int8", "int64", 127], ["int8", "int64", 127],
+               ["int16", "int64", 2 ** 15 - 1], ["int32", "int64", 2 ** 31 - 1], ["uint8", "uint64", 255]]
+WIDTH_BUILDS = ["mkdm-dtypes", "frame", "constructor"]
+NOT_FLOAT32 = [0.1, 0.2, 0.3, 0.7, 1 / 3, 2 / 3, 1.1, 2.7, 10.01, 9.99, 0.001, 123.456]
+
+
+def _fits_float32(v):
+    return float(np.float32(v)) == v
+
+
+def _width_dm(rng, pair, positive=True, min_m=3):
+    """>= 3 alternatives x >= 2 criteria of one kind; the FIRST criterion is stored in the narrow dtype, at least one later
+    one in the wide dtype and every wide criterion holds values the narrow dtype cannot hold (0.1, 1/3, arbitrary doubles
+    for float64 after float32; whole numbers above the narrow maximum for int64 / uint64). No criterion is constant."""
+    narrow, wide, top = pair
+    m, n = rng.randint(min_m, 7), rng.randint(2, 5)
+    dts = [narrow] + [rng.choice([narrow, wide, wide]) for _ in range(n - 1)]
+    if wide not in dts:
+        dts[rng.randrange(1, n)] = wide
+    signed = not positive and not narrow.startswith("u")
+    cols = []
+    for j in range(n):
+        while True:
+            if top is None and dts[j] == narrow:
+                col = [rng.randint(-16 if signed else 1, 40) / 8 for _ in range(m)]  # k/8: a float32 holds it
+            elif top is None:
+                col = [rng.choice(NOT_FLOAT32) * rng.choice([1, 1, 2, 8]) if rng.random() < 0.5 else G.value(rng, "float", True) for _ in range(m)]
+                if signed:
+                    col = [-v if rng.random() < 0.3 else v for v in col]
+            elif dts[j] == narrow:
+                col = [rng.randint(-min(top, 100) if signed else 1, min(top, 40 if rng.random() < 0.5 else top)) for _ in range(m)]
+            else:
+                hi = rng.choice([top * 4, 10 ** 6 + top, 2 ** 40])
+                col = [rng.randint(top + 1, hi) for _ in range(m)]
+                if rng.random() < 0.5:  # some cells small enough for the narrow dtype, the others not
+                    col = [rng.randint(1, min(top, 100)) if rng.random() < 0.3 else v for v in col]
+                    col[rng.randrange(m)] = rng.randint(top + 1, hi)
+                if signed:
+                    col = [-v if rng.random() < 0.3 else v for v in col]
+            for i in range(1, m):
+                if rng.random() < 0.15:
+                    col[i] = col[rng.randrange(i)]
+            if len(set(col)) > 1 and (dts[j] == narrow or top is not None or not all(_fits_float32(v) for v in col)) and \
+                    (positive or top is None or dts[j] == narrow or any(abs(v) > top for v in col)):
+                break
+        cols.append(col)
+    return {
+        "matrix": [[cols[j][i] for j in range(n)] for i in range(m)],
+        "dtypes": dts,
+        # how build_dm makes it: mkdm(array, dtypes=[...]) / mkdm(DataFrame with per-column dtypes) / DecisionMatrix(DataFrame, ...)
+        "build": rng.choice(WIDTH_BUILDS),
+        "array_dtype": "float64" if top is None else wide,
+        "objectives": G.objectives(rng, n, rng.choice(["max", "mixed", "mixed", "min"])),
+        "weights": G.weights(rng, n, rng.choice(["dyadic", "float"])),
+        "alternatives": G.labels(rng, G.LABEL_POOL_ALT, m),
+        "criteria": G.labels(rng, G.LABEL_POOL_CRIT, n),
+        "family": "same-kind-widths",
+    }
+
+
+# the steps that do not target the matrix: [kind, class]
+NO_MATRIX_STEPS = ([["weighter", c] for c in WEIGHTERS] + [["scaler", c] for c in SWITCH] + [["nondom", True], ["nondom", False]]
+                   + [["inverter", c] for c in INVERTERS] + [["user", "weights-only"], ["user", "subset"], ["filter", None]])
+
+
+def _width_case(rng, kind, cls, pair, shape):
+    """a step that does not target the matrix (a weighter, a weight-target scaler, FilterNonDominated, a by-criteria filter,
+    an objective inverter - judged on the maximise criteria -, a user transformer that does not return the matrix) over
+    criteria of one kind but different widths, the narrower first"""
+    free = (kind, cls) in (("weighter", "EqualWeighter"), ("inverter", "NegateMinimize")) or kind in ("scaler", "nondom", "user", "filter")
+    positive = not free or rng.random() < 0.6
+    spec = None
+    for _ in range(40):
+        dm = _width_dm(rng, pair, positive=positive)
+        if kind == "weighter":
+            spec = {"k": "weighter", "cls": cls, "params": _weighter_params(rng, cls)}
+        elif kind == "scaler":
+            spec = {"k": "scaler", "cls": cls, "target": "weights", "params": _scaler_params(rng, cls)}
+        elif kind == "nondom":
+            spec = {"k": "nondom", "strict": cls}
+        elif kind == "inverter":
+            spec = {"k": "inverter", "cls": cls}
+        elif kind == "user":
+            spec = _user_spec(rng, mode="same")
+            spec["returns"] = ["weights"] if cls == "weights-only" else [r for r in spec["returns"] if r != "matrix"]
+        else:
+            spec = _filter_spec(rng, dm, keep_at_least=2)
+        if spec is not None:
+            break
+    if spec is None:
+        return None
+    steps = [spec]
+    if shape == "pipeline":
+        before = [_weight_only_step(rng, statistical=positive) for _ in range(rng.randint(0, 2))]
+        after = [_weight_only_step(rng) for _ in range(rng.randint(0 if before else 1, 2))]
+        steps = before + [spec] + after
+    return {"dm": dm, "steps": steps, "pipe": shape != "alone", "stagewise": len(steps) > 1,
+            "widths": ["%s+%s" % (pair[0], pair[1]), dm["build"], shape]}
+
+
+def _width_cases(rng, rounds):
+    """every step that does not target the matrix x {float32+float64, int8/16/32+int64, uint8+uint64} x shape; the way the
+    matrix is built (mkdm with dtypes, mkdm of a DataFrame, the DecisionMatrix constructor) is drawn per case"""
+    out = []
+    for r in range(rounds):
+        for i, (kind, cls) in enumerate(NO_MATRIX_STEPS):
+            for k, shape in enumerate(SHAPES):
+                for pair in (WIDTH_PAIRS[0], WIDTH_PAIRS[2], WIDTH_PAIRS[4 + (r + i + k) % 3]):
+                    c = _width_case(rng, kind, cls, pair, shape)
+                    if c is not None:
+                        out.append(c)
+    return out
+
+
+def _random_cases(rng, n_sweeps, n_user, n_pipe, n_mask=1, n_seq=(60, 40), n_fixed=1, n_big=2, n_nonfinite=1, n_labels=(3, 30, 20), n_const=1, n_width=1):
     cases = []
     for _ in range(n_sweeps):
         cases.extend(_every_builtin(rng))
@@ -728,6 +920,10 @@ def _random_cases(rng, n_sweeps, n_user, n_pipe, n_mask=1, n_seq=(60, 40), n_fix
     # that are not strings
     cases.extend(_nonfinite_filter_cases(rng, n_nonfinite))
     cases.extend(_nonstring_label_cases(rng, *n_labels))
+    # ... a constant criterion under the matrix-only classes; criteria of one kind but different widths under the steps
+    # that do not target the matrix
+    cases.extend(_constant_criterion_cases(rng, n_const))
+    cases.extend(_width_cases(rng, n_width))
     return cases
 
 
@@ -735,11 +931,11 @@ def gen(ctx):
     rng = ctx.rng
     return [{"table": True}] + _random_cases(rng, ctx.n(5, 70), ctx.n(70, 1000), ctx.n(110, 1600), ctx.n(2, 20),
                                              (ctx.n(70, 900), ctx.n(50, 600)), ctx.n(2, 12), ctx.n(3, 20), ctx.n(1, 8),
-                                             (ctx.n(3, 24), ctx.n(30, 300), ctx.n(20, 200)))
+                                             (ctx.n(3, 24), ctx.n(30, 300), ctx.n(20, 200)), ctx.n(2, 12), ctx.n(2, 10))
 
 
 def search_gen(ctx):
-    return _random_cases(ctx.rng, 12, 150, 250, 3, (150, 100), 3, 4, 2, (6, 60, 40))
+    return _random_cases(ctx.rng, 12, 150, 250, 3, (150, 100), 3, 4, 2, (6, 60, 40), 3, 3)
 
 
 # --------------------------------------------------------------------------- implementation side
@@ -784,8 +980,24 @@ def build_dm(d):
 
     import skcriteria as skc
 
+    if d.get("build") in ("frame", "constructor"):
+        # criteria stored column by column, each with its own dtype, in a pandas DataFrame
+        import pandas as pd
+
+        from skcriteria.core.data import DecisionMatrix
+
+        frame = pd.DataFrame({c: np.array([row[j] for row in d["matrix"]], dtype=np.dtype(d["dtypes"][j]))
+                              for j, c in enumerate(d["criteria"])}, index=list(d["alternatives"]))
+        with warnings.catch_warnings():
+            warnings.simplefilter("ignore")
+            if d["build"] == "constructor":
+                return DecisionMatrix(frame, list(d["objectives"]), np.array(d["weights"], dtype=float))
+            return skc.mkdm(frame, list(d["objectives"]), weights=np.array(d["weights"], dtype=float),
+                            alternatives=list(frame.index), criteria=list(frame.columns))
     if d.get("exact_int"):  # whole numbers float64 cannot hold: straight into the integer array
         arr = np.array(d["matrix"], dtype=np.dtype(d["dtypes"][0]))
+    elif d.get("array_dtype"):
+        arr = np.array(d["matrix"], dtype=np.dtype(d["array_dtype"]))
     else:
         arr = np.array([[_CELL[x] if x is None or isinstance(x, str) else x for x in row] for row in d["matrix"]], dtype=float)
     with warnings.catch_warnings():
@@ -1338,6 +1550,14 @@ def tags(case, obs):
             t.append("non-finite-cells-under-filter:%s" % ("a-surviving-row-has-one" if any(x is None or isinstance(x, str) for r in rows for x in r) else "none-survives"))
     for nl in case.get("nonstring_labels", []):
         t.append("non-string-labels:" + nl)
+    if case.get("constant_criterion"):
+        cls, which, shape, _ = case["constant_criterion"]
+        t.append("constant-criterion:%s/%s" % (cls, which))
+        t.append("constant-criterion:" + shape)
+    if case.get("widths"):
+        pair, build, shape = case["widths"]
+        t.append("same-kind-widths:%s/%s" % (pair, build))
+        t.append("same-kind-widths:" + shape)
     if case.get("seq"):
         t.append("one-object-two-matrices:" + case["seq"])
         o2 = obs.get("second", {})
